@@ -886,11 +886,9 @@ def IMPORTS_TEXT(nc, imports):
 
 @contract(_G + "_create_imports_string", props=["C11", "C08", "C02", "C09"])
 class create_imports_string:
-    deductive = False
     safety = False
     modifies = []
 
-    @clause(mode="bounded")
     def ensures_text(self, result):
         return result == IMPORTS_TEXT(self.naming_convention, self.module_imports)
 
